@@ -68,7 +68,11 @@ Inductive opcall :=
 | OGranularSet (a m s : nat)
 | OObjectSet (a m : nat)
 | OApi (fn : api_fn) (a : nat) (m s : option nat)
-| ORemoveCustom (a : nat).
+| ORemoveCustom (a : nat)
+| OCopy (a : nat)
+| ODeduplicate (a : nat)
+| OClearOpts (a s : nat) (mr lg : bool)
+| OSetOpts (a m s : nat) (mr lg : bool).
 
 Section Run.
   Variable vt : variant.
@@ -132,6 +136,10 @@ Section Run.
         api_markings vt W fn (env_get e a) (match m with Some i => env_get e i | None => VA ANone end)
                      (match s with Some i => env_get e i | None => VA ANone end) h
     | ORemoveCustom a => remove_custom_stix vt W (env_get e a) h
+    | OCopy a => shallow_copy (env_get e a) h                  (* copy.copy: a library object's copy shares its attributes *)
+    | ODeduplicate a => deduplicate (env_get e a) h
+    | OClearOpts a s mr lg => granular_clear_f vt W mr lg (env_get e a) (env_get e s) h
+    | OSetOpts a m s mr lg => granular_set_f vt W mr lg (env_get e a) (env_get e m) (env_get e s) h
     end.
 
   (* ---- canonical names of containers: smallest env index, smallest path ---- *)
